@@ -270,6 +270,8 @@ class ModbusTransactionManager(object):
                 min_size = 5
             elif isinstance(self.client.framer, ModbusBinaryFramer):
                 min_size = 3
+            elif isinstance(self.client.framer, ModbusTlsFramer):
+                min_size = 2
             else:
                 min_size = expected_response_length
 
@@ -288,6 +290,8 @@ class ModbusTransactionManager(object):
                     func_code = int(read_min[3:5], 16)
                 elif isinstance(self.client.framer, ModbusBinaryFramer):
                     func_code = byte2int(read_min[-1])
+                elif isinstance(self.client.framer, ModbusTlsFramer):
+                    func_code = byte2int(read_min[0])
                 else:
                     func_code = -1
 
